@@ -43,8 +43,53 @@ static void check_range (const char *name, const std::vector<From>& src)
   { gch::small_vector<To, N> v; for (std::size_t i = 0; i < src.size (); ++i) v.emplace (v.begin (), src[src.size () - 1 - i]); cmp (v, 0, "emplace(begin, source value)"); }
 }
 
+// value-initialisation and fill shortcuts: for trivially default-constructible element types the header value-constructs /
+// fills in bulk; the result must be what `T ()` / a copy of `x` is — also for types whose value-initialised object is NOT
+// all-zero bytes (a null pointer to data member is -1 in the Itanium ABI) and for aggregates containing one
+struct Rec { int first; int second; };
+typedef int Rec::*MemPtr;
+struct Agg { MemPtr p; int k; };
+static bool veq (MemPtr a, MemPtr b) { return a == b; }
+static bool veq (const Agg& a, const Agg& b) { return a.p == b.p && a.k == b.k; }
+static bool veq (double a, double b) { return a == b; }
+static bool veq (int *a, int *b) { return a == b; }
+static bool veq (EI a, EI b) { return a == b; }
+static bool veq (bool a, bool b) { return a == b; }
+
+template <typename T, unsigned N>
+static void check_value_init (const char *name, const T& x)
+{
+  const T zero = T ();
+  auto all = [&] (const gch::small_vector<T, N>& v, std::size_t from, std::size_t to, const T& want, const char *op)
+  {
+    for (std::size_t i = from; i < to; ++i)
+    {
+      ++g_checks;
+      if (! veq (v[i], want)) { bad (std::string (name) + ": " + op + " element " + std::to_string (i) + " is not " + (&want == &zero ? "a value-initialised T" : "a copy of the argument")); return; }
+    }
+  };
+  for (std::size_t n : { std::size_t (1), std::size_t (N), std::size_t (N + 3) })
+  {
+    { gch::small_vector<T, N> v (n); all (v, 0, n, zero, "small_vector (n)"); }
+    { gch::small_vector<T, N> v (n, x); all (v, 0, n, x, "small_vector (n, x)"); }
+    { gch::small_vector<T, N> v; v.resize (n); all (v, 0, n, zero, "resize (n) from empty"); }
+    { gch::small_vector<T, N> v (2, x); v.resize (2 + n); all (v, 0, 2, x, "resize (n) keeps the old elements"); all (v, 2, 2 + n, zero, "resize (n) growing"); }
+    { gch::small_vector<T, N> v (1, zero); v.resize (1 + n, x); all (v, 1, 1 + n, x, "resize (n, x)"); }
+    { gch::small_vector<T, N> v; v.reserve (2 * n + 1); v.resize (n); all (v, 0, n, zero, "resize (n) into reserved storage"); }
+    { gch::small_vector<T, N> v; v.assign (n, x); all (v, 0, n, x, "assign (n, x)"); v.emplace_back (); all (v, n, n + 1, zero, "emplace_back ()"); }
+    { gch::small_vector<T, N> v (n, zero); v.insert (v.begin (), n, x); all (v, 0, n, x, "insert (pos, n, x)"); all (v, n, 2 * n, zero, "insert (pos, n, x) keeps the tail"); }
+  }
+}
+
 int main ()
 {
+  check_value_init<MemPtr, 0> ("int Rec::* (null is not all-zero bits)", &Rec::second);
+  check_value_init<MemPtr, 3> ("int Rec::* (null is not all-zero bits)", &Rec::first);
+  { Agg a; a.p = &Rec::first; a.k = 7; check_value_init<Agg, 2> ("aggregate holding a pointer to member", a); }
+  check_value_init<double, 2> ("double", -0.0);
+  { static int obj; check_value_init<int *, 3> ("int*", &obj); }
+  check_value_init<EI, 4> ("enum class", EI::e5);
+  check_value_init<bool, 5> ("bool", true);
   static D ds[4];
   std::vector<D *> dp; for (int i = 0; i < 4; ++i) dp.push_back (&ds[i]);
   check_range<B2 *, D *, 2> ("Derived* -> SecondBase*", dp);
